@@ -38,8 +38,9 @@ __CPROVER_ensures(verif_exc == 0 ==> (ret->d_nf == 0 ==> ret->d_sec_lead == 0))
 __CPROVER_ensures(verif_exc == 0 ==> (g_ratio_calls == 1 && ret->ndbl == 1 && ret->dbl_is_ratio && ret->dbl_den == 1000000))
 __CPROVER_ensures(verif_exc == 0 ==> ret->d_exact)
 __CPROVER_ensures(verif_exc == 0 ==> ret->d_total == usecs)
-/* 5. mixed-radix canonical form: h < 24, m < 60, s < 60, no leading zero field */
-__CPROVER_ensures(verif_exc == 0 ==> ((ret->d_nf >= 2 ==> DUR_MIN(ret) < 60) && (ret->d_nf >= 3 ==> DUR_HR(ret) < 24)))
+/* 5. mixed-radix canonical form: h < 24 and m < 60 wherever the field is present (an absent field counts as 0), s < 60,
+ *    no leading zero field */
+__CPROVER_ensures(verif_exc == 0 ==> (DUR_MIN(ret) < 60 && DUR_HR(ret) < 24))
 __CPROVER_ensures(verif_exc == 0 ==> (ret->dbl_num < 60000000 && (ret->d_nf >= 1 ==> ret->d_f0 != 0)))
 /* 6. printed precision: the requested one; a negative request selects a default in 0..6 */
 __CPROVER_ensures(verif_exc == 0 ==> (subsecond_precision >= 0 ? ret->dbl_prec == subsecond_precision
